@@ -326,7 +326,7 @@ def _gen_chrom(rng, c, n, opts):
     for k in opts.get("outliers", []):             # gross outliers (dropped by drop_outliers when > 50 bins)
         bins[k][5] += rng.choice([-1, 1]) * 8 * LU
     for k in opts.get("edge", []):                 # filtered edge bins
-        how = rng.choice(["w0", "null", "wlow"])
+        how = opts.get("edge_how") or rng.choice(["w0", "null", "wlow"])
         b = bins[k]
         if how == "w0":
             b[4] = 0
@@ -355,8 +355,14 @@ def _gap_layout(rng, n):
 
 
 def _gen_table(rng, big=False):
+    """-> names, bins, force: `force` are config fields the table is built for (the filter that empties whole
+    chromosomes in "solo" tables must be on)"""
     nchrom = rng.choice([1, 1, 2, 2, 3, 4, 6])
     names = _chrom_names(rng, nchrom)
+    # "solo": exactly one chromosome keeps surviving bins; all bins of the others are null-coverage (dropped by
+    # skip_low) or of weight 1/4 (dropped by min_weight 1/2); gene names are made chromosome-specific
+    solo = rng.randint(1, nchrom) if nchrom >= 2 and rng.random() < 0.3 else 0
+    solo_how = rng.choice(["null", "wq"])
     sizes_small = [1, 1, 2, 3, 5, 12, 30, 49, 50, 51, 52, 60]
     sizes_big = [100, 101, 102, 103, 150, 250, 400]
     bins = []
@@ -380,6 +386,10 @@ def _gen_table(rng, big=False):
         if opts["gaps"] and rng.random() < 0.5:    # filtered bins at the inner arm ends too
             g = sorted(opts["gaps"])[0]
             edge += [k for k in (g - 2, g - 1) if 0 <= k < n]
+        if solo:
+            edge = [] if c == solo else list(range(n))
+            opts["edge_how"] = "null" if solo_how == "null" else "wlow"
+            opts["p_w0"] = 0.0
         opts["edge"] = sorted(set(edge))
         if n > 50 and rng.random() < 0.7:          # one or two gross outliers: interior, at a chromosome / arm edge
             cand = [0, n - 1, rng.randrange(n), rng.randrange(n)]
@@ -387,8 +397,16 @@ def _gen_table(rng, big=False):
                 g = sorted(opts["gaps"])[0]
                 cand += [g - 2, g - 1]
             opts["outliers"] = sorted({k for k in rng.sample(cand, rng.choice([1, 2])) if 0 <= k < n})
-        bins += _gen_chrom(rng, c, n, opts)
-    return names, bins
+        cb = _gen_chrom(rng, c, n, opts)
+        if solo:
+            for b in cb:
+                if b[3] not in ("-", ".", "CGH", "Antitarget", "Background"):
+                    b[3] = f"{b[3]}_{c}"
+        bins += cb
+    force = {}
+    if solo:
+        force = {"skiplow": True} if solo_how == "null" else {"minw": 32}
+    return names, bins, force
 
 
 def _configs(rng, n_cfg, procs_choices):
@@ -404,8 +422,10 @@ def random_inputs(ctx: Ctx, n_tables, n_cfg, big_every=8):
     rng = ctx.rng
     out = []
     for t in range(n_tables):
-        names, bins = _gen_table(rng, big=(t % big_every == big_every - 1))
+        names, bins, force = _gen_table(rng, big=(t % big_every == big_every - 1))
         for cfg in _configs(rng, n_cfg, [1, 1, 2, 3, 16]):
+            if force and rng.random() < 0.8:
+                cfg.update(force)
             out.append(dict(cfg, bins=bins, names=names, gap=100000, mab=50, forced=False, kern=[]))
     return out
 
@@ -414,7 +434,7 @@ def structured_inputs():
     """the boundary inputs of DESIGN 8.1 that a random draw might miss"""
     out = []
 
-    def chrom(c, n, gaps=None, w0=(), null=(), name="G"):
+    def chrom(c, n, gaps=None, w0=(), null=(), name="G", wq=()):
         bins, pos = [], 1000
         for k in range(1, n + 1):
             pos += (gaps or {}).get(k, 0)
@@ -422,6 +442,8 @@ def structured_inputs():
             b = [c, pos, pos + 100, f"{name}{k // 4}", 0 if k in w0 else (64, 48, 32)[k % 3], l, 64 + 16 * (k % 5)]
             if k in null:
                 b[5], b[6] = -20 * LU, 0
+            if k in wq:
+                b[4] = 16
             bins.append(b)
             pos += 100
         return bins
@@ -450,6 +472,18 @@ def structured_inputs():
     add(chrom(1, 30) + chrom(2, 6, w0=range(1, 7)) + chrom(3, 8), ["chr1", "chr2", "chrX"])
     add(chrom(1, 30) + chrom(2, 8) + chrom(3, 6, w0=range(1, 7)), ["chr1", "chr2", "chrY"])
     add(chrom(1, 6, w0=range(1, 7)), ["chr1"])
+    # exactly ONE chromosome keeps surviving bins; the wholly dropped ones have the same coordinates, non-zero
+    # weight / depth and their own gene names (a bin -> segment match by coordinates alone would count them in)
+    for nchr, keep in ((2, 1), (2, 2), (3, 2), (4, 1), (4, 4)):
+        nm = ["chr1", "chr2", "chr7", "chrX"][:nchr]
+        for how in ("null", "wq", "w0"):
+            bins = []
+            for c in range(1, nchr + 1):
+                n = 30 if c == keep else (12, 40, 30)[c % 3]
+                kw = {} if c == keep else {how: range(1, n + 1)}
+                bins += chrom(c, n, name="KLMN"[c - 1], **kw)
+            add(bins, nm, skiplow=(how == "null"), minw=(32 if how == "wq" else 0))
+            add(bins, nm, skiplow=(how == "null"), minw=(32 if how == "wq" else 0), procs=3)
     # the outlier filter (skip_outliers = factor; 10 is the default, 3 / 1 actually drop an isolated spike / edge bins)
     spiky = chrom(1, 130, gaps={70: 3000000})
     for k in (0, 30, 68, 69, 100, 129):
@@ -504,6 +538,8 @@ def _count(ctx, rec):
             ctx.bump("chrom_split_into_two_arms")
         if not any(surv[off:off + n]):
             ctx.bump("chrom_all_bins_filtered")
+            if any(b[4] > 0 for b in cb):
+                ctx.bump("chrom_all_bins_filtered_with_nonzero_weight")
         for lo, hi in arms:
             sv = surv[off + lo: off + hi + 1]
             k = sum(sv)
@@ -524,6 +560,8 @@ def _count(ctx, rec):
                         else:
                             ctx.bump("arm_edge_bin_filtered_outlier")
         off += n
+    if nch >= 2 and len({b[0] for b, s in zip(bins, surv) if s}) == 1:
+        ctx.bump("exactly_one_chromosome_with_survivors")
     for b, s in zip(bins, surv):
         if not s and b[4] > 0 and not (rec["minw"] and b[4] < rec["minw"]) \
                 and not (rec["skiplow"] and (b[5] < -15 * LU or b[6] == 0)):
@@ -591,7 +629,7 @@ def run(ctx: Ctx):
                  nchrom=1, maxbins=4, methods=["none", "haar", "hmm"], gap=10, mab=1,
                  kinds=["ok", "w0", "wlow", "null", "l15", "l15m"], skiplows=[False, True], minws=[0, 16, 17],
                  gapsizes=[10], withgap=False),
-            dict(name="2 chromosomes <= 3 bins each, ok/zero-weight/null x skip_low",
+            dict(name="2 chromosomes <= 3 bins each (same coordinates on both), ok/zero-weight/null x skip_low",
                  nchrom=2, maxbins=3, methods=["none", "haar", ["hmm", "hmm-tumor", "hmm-germline", "hmm"][shard]],
                  gap=10, mab=1, kinds=["ok", "w0", "null"], skiplows=[False, True], minws=[0], gapsizes=[10],
                  withgap=False),
@@ -606,9 +644,9 @@ def run(ctx: Ctx):
                  nchrom=1, maxbins=3, methods=["none", "haar", "hmm-germline"], gap=10, mab=1,
                  kinds=["ok", "w0", "wlow", "null", "l15", "l15m"], skiplows=[False, True], minws=[0, 17],
                  gapsizes=[10], withgap=False),
-            dict(name="2 chromosomes <= 2 bins each, ok/zero-weight",
-                 nchrom=2, maxbins=2, methods=["none", "haar", "hmm-tumor"], gap=10, mab=1, kinds=["ok", "w0"],
-                 skiplows=[False], minws=[0], gapsizes=[10], withgap=False),
+            dict(name="2 chromosomes <= 2 bins each (same coordinates on both), ok/zero-weight/null x skip_low",
+                 nchrom=2, maxbins=2, methods=["none", "haar", "hmm-tumor"], gap=10, mab=1,
+                 kinds=["ok", "w0", "null"], skiplows=[False, True], minws=[0], gapsizes=[10], withgap=False),
         ]
         arm_scope = dict(armbins=6, armgaps=[0, 9, 10], armmabs=[1, 2])
     all_records = []
